@@ -17,7 +17,9 @@ from .. import fixtures
 from ..core import Machinery
 from .c01 import num_form
 
-TEXTS = ["alpha", "two words", "béta ü", "😀 astral", "x" * 40, "semi;colon", "tab\there", "O'Brien", "a=b", "#hash", "percent 5%", "ID-0042", "1-2-3"]
+TEXTS = ["alpha", "two words", "béta ü", "😀 astral", "x" * 40, "semi;colon", "tab\there", "O'Brien", "a=b", "#hash", "percent 5%", "ID-0042", "1-2-3",
+         # characters that str.splitlines() takes for line ends but CSV does not (they stay unquoted in the file)
+         "vt\x0bx", "ff\x0cx", "fs\x1cx", "gs\x1dx", "rs\x1ex", "nel\x85x", "ls\u2028x", "ps\u2029x"]
 TEXT_DELIM = ["a,b", "comma, space", ",lead", "trail,"]
 TEXT_QUOTE = ['say "hi"', '"quoted"', 'a""b', '"']
 TEXT_BREAK = ["line1\nline2", "cr\rlf", "crlf\r\nend", "\n"]
@@ -235,7 +237,21 @@ def run(ctx):
     judge(ctx, events)
     ctx.stage("selftest")
     import copy
-    good = next(e for e in events if e["status"] == "ok" and any(c[0] == "text" for c in e["cells"]))
+    # (the event to corrupt must itself be an accepted one: under a changed library the first candidates may already be rejected)
+    good = None
+    saved = ctx.failures
+    for cand in [e for e in events if e["status"] == "ok" and any(c[0] == "text" for c in e["cells"])][:40]:
+        ctx.failures = []
+        judge(ctx, [cand], count=False)
+        if not ctx.failures:
+            good = cand
+            break
+    ctx.failures = saved
+    if good is None:
+        if ctx.failures:
+            ctx.extra["binding_selftest"] = "skipped: no accepted event to corrupt (violations are reported)"
+            return
+        raise Machinery("binding self-test: no accepted event to corrupt")
     b1 = copy.deepcopy(good)
     i = next(i for i, c in enumerate(b1["cells"]) if c[0] == "text")
     b1["cells"][i][2] = b1["cells"][i][2] + [33]
